@@ -12,9 +12,21 @@ from .gen import Gen, Opts, type_text
 CODECS = ['ber', 'der', 'per', 'uper', 'oer', 'jer', 'xer', 'gser']
 
 
-def item_type(g):
+def item_type(g, choice=False):
     o = Opts(max_depth=1, allow_exotic=0.0, allow_ext=False, kinds=['bool', 'int', 'enum', 'octs', 'str', 'null'])
     g2 = Gen(g.rng, o)
+    if choice:
+        # a CHOICE of leaves: whether `i Item` is tagged EXPLICIT or IMPLICIT depends on WHICH module's Item is meant
+        alts, seen = [], set()
+        for nm in g.rng.sample(['p', 'q', 'r', 's'], g.rng.choice([2, 3])):
+            for _ in range(20):
+                at = g2.type(depth=1)
+                key = (at['k'], at.get('kind'))
+                if key not in seen:
+                    seen.add(key)
+                    alts.append((nm, at))
+                    break
+        return g2, {'k': 'choice', 'root': alts, 'ext': None}
     return g2, g2.type(depth=1)
 
 
@@ -26,8 +38,9 @@ def build(rng):
         if lows[i] > lims[i]:
             lows[i] = 0
     items = []
-    for _ in range(2):
-        g2, t = item_type(g)
+    which = rng.choice([None, 0, 1, 1])
+    for i in range(2):
+        g2, t = item_type(g, choice=(which == i))
         items.append((g2, t))
     libs, users, inline = [], [], []
     for i in (0, 1):
